@@ -31,6 +31,9 @@ KANI_TRUST = [
 CHECKS = {
     "C09": dict(
         verus=[dict(unit="sweep")],
+        kani=[dict(crate="nexrad-model", files=["w09.rs"], role="witness", harnesses=[
+            dict(name="w09_merge", bounded="2 + 2 radials, symbolic azimuth numbers / timestamps / elevation numbers", what="merge: Err iff elevations differ; union ordered by azimuth, ties first-then-second (real sort_by_key)"),
+        ])],
         trusted_base=STD_TRUST + [
             "assumed std contracts: Vec::extend appends the iterator's items in order; slice::sort_by_key is a stable sort by key",
         ],
@@ -54,6 +57,10 @@ CHECKS = {
     ),
     "C03": dict(
         verus=[dict(unit="framing")],
+        kani=[dict(crate="nexrad-decode", files=["drd.rs", "w03.rs"], role="witness", harnesses=[
+            dict(name="w03_two_frames", bounded="2 frames, symbolic type codes", what="two whole frames -> two messages in order, opaque placeholders for types without decoder, reader at the end"),
+            dict(name="w03_truncation", bounded="1 frame, cuts at 0/1/2403 body bytes; tails of 1/27 bytes", what="cut inside a body is an error; trailing fragment < header ignored"),
+        ])],
         trusted_base=STD_TRUST + [
             "reader model: Read::read_exact consumes exactly |buf| bytes or fails when fewer remain (std::io contract for &[u8]/Cursor)",
             "util::deserialize::<_, MessageHeader> reads 28 bytes at the ICD offsets (proved by Kani harness c10_layout_message_header)",
@@ -70,6 +77,10 @@ CHECKS = {
         kani=[dict(crate="nexrad-data", files=["c05.rs", "c08s.rs"], contracts=False, no_default_features=True, features=["decode"], harnesses=[
             dict(name="c05_volume_header_text_fields", what="tape filename / extension number / ICAO accessors == header bytes 0..9 / 9..12 / 20..24 (ASCII)"),
             dict(name="c08d_volume_header_date_time", what="date_time() calls get_datetime(date, ms(time)) through the real 24-byte deserialize (closed form: C08)"),
+        ]),
+        dict(crate="nexrad-data", files=["w05.rs"], role="witness", tag="-witness", no_default_features=True, features=["decode"], harnesses=[
+            dict(name="w05_split_records_12_bytes", bounded="every 12-byte string", what="records are consecutive prefix+|size| slices; the list stops only at the end or at a truncated record"),
+            dict(name="w05_compressed_flag", bounded="every record of <= 8 bytes", what="compressed() exactly when 'BZ' follows the prefix"),
         ])],
         trusted_base=STD_TRUST + ["i32::from_be_bytes / unsigned_abs std contracts; [u8]==[u8;N] compares contents"],
         not_decided=["decompress(record built from payload) == payload: reduces to bzip2's own round trip (C library behind FFI)",
@@ -82,6 +93,10 @@ CHECKS = {
         verus=[dict(unit="container"), dict(unit="volume_scan")],
         kani=[dict(crate="nexrad-data", files=["c05.rs"], no_default_features=True, features=["decode"], harnesses=[
             dict(name="c05_volume_header_prefix", what="File::header on every strict prefix of the 24-byte header: Err, never a panic"),
+        ]),
+        dict(crate="nexrad-data", files=["w05.rs"], role="witness", tag="-witness", no_default_features=True, features=["decode"], harnesses=[
+            dict(name="w05_split_records_12_bytes", bounded="every 12-byte string", what="no panic, termination"),
+            dict(name="w06_short_volumes", bounded="every volume of <= 27 bytes", what="shorter-than-header and truncated-prefix volumes: empty record list, no panic"),
         ])],
         trusted_base=STD_TRUST + ["i32::from_be_bytes / unsigned_abs std contracts; [u8]==[u8;N] compares contents"],
         not_decided=["Debug formatting plumbing (std::fmt builders) and bzip2 returning Err on corrupt streams are assumed"],
@@ -125,6 +140,9 @@ CHECKS = {
             dict(name="c11_cut_codes", what="channel configuration / waveform codes, all 2^8"),
             dict(name="c11_header_bits", what="vcp_sequencing / vcp_supplemental_data sub-fields == documented bits, all 2^16"),
             dict(name="c11_header_codes", what="pattern type, pulse width, doppler resolution codes"),
+        ]),
+        dict(crate="nexrad-decode", files=["drd.rs", "w03.rs"], role="witness", tag="-witness", harnesses=[
+            dict(name="w11_vcp_cuts", bounded="<= 2 cuts fit the 114-byte buffer; declared count fully symbolic", what="exactly the declared cuts from their own windows; a count that does not fit is an error"),
         ])],
         trusted_base=STD_TRUST + KANI_TRUST + [
             "f64::powf(2.0, k) for integer k in [-15,0] is the exact power of two (stub asserts the call-site precondition)",
@@ -157,6 +175,9 @@ CHECKS = {
             dict(name="wire_layout_RangeZone", what="4-byte range zone"),
             dict(name="c13_op_code", what="op codes 0,1,2 -> bypass / bypass map in control / force"),
             dict(name="c08_accessor_cfm_header", what="generation date-time == get_datetime(date, minutes(time))"),
+        ]),
+        dict(crate="nexrad-decode", files=["drd.rs", "w03.rs"], role="witness", tag="-witness", harnesses=[
+            dict(name="w13_cfm_structure", bounded="<= 1 elevation segment; zone count <= 1 at azimuths 0 and 359, 0 elsewhere", what="numbering, 360 azimuths, declared zone counts, zone bytes, consumed length"),
         ])],
         trusted_base=STD_TRUST + KANI_TRUST + ["reader model + deserialize contract (layouts proved by the three layout harnesses)"],
         explanation="decode_clutter_filter_map extracted verbatim; three nested loop invariants over a ghost cursor prove the "
